@@ -36,7 +36,7 @@ def _negated_operand(e):
 def run(ctx: Context) -> None:
     p = ctx.p
     ctx.rule('R13.1', "purity: nothing is stored through an alias of the input dataset; all writes go to the copy", floor=4)
-    ctx.rule('R13.2', "the flip decision reads the 'positive' attribute of the input variable, not of the copy whose attribute was just overwritten", floor=3)
+    ctx.rule('R13.2', "the flip decision reads the 'positive' attribute of the input variable, not of the copy whose attribute was just overwritten, and reads it as the discovery of depth coordinates does", floor=4)
     ctx.rule('R13.3', "coordinate values and their bounds are negated under the same guard (requested sign set and different from the data's), stored back under their own names with dims, attrs and encoding kept; bounds are looked up dataset-wide; the current sign is updated before the ordering test", floor=8)
     ctx.rule('R13.4', "ordering is read from the first two (possibly flipped) values of the copy, deep-to-shallow iff (d1 > d2) == positive-down, and a mismatch reverses the whole dataset along the coordinate's dimension", floor=4)
     ctx.rule('R13.5', "each transformation is dominated by its `is not None` guard and by a comparison of current with requested state (unset options leave that aspect untouched; a second application is a no-op)", floor=4)
@@ -178,16 +178,30 @@ def run(ctx: Context) -> None:
         for n, owner in reads:
             ctx.check('R13.2', kind(owner) == 'input', "every read of the 'positive' attribute looks at the input variable (the copy's was just overwritten)", fi, n,
                       construct=f"{norm_text(n)} reads {norm_text(owner)} ({kind(owner)})")
-        ok = False
+        ok = folded = False
         for d in sign_defs:
             v = d.value
             if isinstance(v, ast.Compare) and len(v.ops) == 1 and isinstance(v.ops[0], ast.Eq):
                 sides = [v.left, v.comparators[0]]
                 for a, b in (sides, sides[::-1]):
-                    if const_value(b, None) == 'down' and any(flow.resolve(a) is r for r, _ in reads):
-                        ok = True
+                    if const_value(b, None) != 'down':
+                        continue
+                    a = flow.resolve(a)
+                    lowered = False
+                    if isinstance(a, ast.Call) and isinstance(a.func, ast.Attribute) and a.func.attr in ('lower', 'casefold') and not a.args:
+                        a, lowered = flow.resolve(a.func.value), True
+                    if isinstance(a, ast.Call) and isinstance(a.func, ast.Name) and a.func.id == 'str' and len(a.args) == 1:
+                        a = flow.resolve(a.args[0])
+                    if any(a is r for r, _ in reads):
+                        ok, folded = True, lowered
         ctx.check('R13.2', ok, "current sign = (<input variable>.attrs['positive'] == 'down')", fi, sign_defs[0] if sign_defs else fi.node,
                   construct=f"definitions of {S}: {[norm_text(d.value)[:60] for d in sign_defs]}")
+        # sibling agreement: Convention.depth_coordinates recognises the attribute case-insensitively
+        dc = ctx.func(f"{BASE}.depth_coordinates")
+        sibling_folds = any(isinstance(n, ast.Call) and isinstance(n.func, ast.Attribute) and n.func.attr in ('lower', 'casefold')
+                            and 'positive' in norm_text(n.func.value) for n in ast.walk(dc.node))
+        ctx.check('R13.2', ok and (folded or not sibling_folds), "the attribute is compared the way the depth coordinates are discovered: case-insensitively ('Down', 'DOWN' are positive down)", fi,
+                  sign_defs[0] if sign_defs else fi.node, construct=f"discovery folds case: {sibling_folds}; normalisation folds case: {folded}")
 
     # ---- R13.5 attribute overwrite
     with ctx.section('R13.5 attribute overwrite'):
@@ -411,6 +425,7 @@ from ..variants import V  # noqa: E402
 
 _D = 'src/emsarray/operations/depth.py'
 VARIANTS = [
+    V('C13', 'positive-case-sensitive', _D, "(str(positive_attr).lower() == 'down')", "(positive_attr == 'down')", 'R13.2'),
     V('C13', 'writes-input-attr', _D, "            new_variable.attrs['positive'] = 'down' if positive_down else 'up'", "            variable.attrs['positive'] = 'down' if positive_down else 'up'", 'R13.1'),
     V('C13', 'no-copy', _D, "    new_dataset = dataset.copy()", "    new_dataset = dataset", 'R13.1'),
     V('C13', 'decision-from-copy', _D, "            positive_attr = variable.attrs.get('positive')", "            positive_attr = new_variable.attrs.get('positive')", 'R13.2'),
@@ -429,5 +444,5 @@ VARIANTS = [
     # benign
     V('C13', 'benign-unary-minus', _D, "            new_values = -1 * new_variable.values", "            new_values = -new_variable.values", None),
     V('C13', 'benign-slice-form', _D, "            d1, d2 = new_variable.values[0:2]", "            d1, d2 = new_variable.values[:2]", None),
-    V('C13', 'benign-inverted-attr-guard', _D, "        if 'positive' in variable.attrs:\n            positive_attr = variable.attrs.get('positive')\n            data_positive_down = (positive_attr == 'down')\n        else:", "        if 'positive' in variable.attrs:\n            data_positive_down = (variable.attrs['positive'] == 'down')\n        else:", None),
+    V('C13', 'benign-inverted-attr-guard', _D, "        if 'positive' in variable.attrs:\n            positive_attr = variable.attrs.get('positive')\n", "        if 'positive' in variable.attrs:\n            positive_attr = variable.attrs['positive']\n", None),
 ]
